@@ -24,7 +24,7 @@ ASSUMPTIONS = ["vmon/tt.py truth tables (self-checked)", "reference axiom genera
                "gadgets are not compared with an independent specification)"]
 REQUIRED = ["exact_cases", "unsatisfiable_cases", "satisfiable_cases", "structural_comparisons", "contradictions_confirmed",
             "planted_orderings_satisfiable", "planted_orderings_unsatisfiable", "large_structural_cases", "opb_cases",
-            "sampled_cases", "sampled_true_references", "sampled_false_references",
+            "sampled_cases", "sampled_true_references", "sampled_false_references", "graph_object_histories",
             "cnf_cases"] + ["family_" + f for f in ("op", "gop", "peb", "stone", "sparsestone", "cpls", "pitfall", "ram", "vdw", "ptn")]
 CASE_TIMEOUT = {"quick": 600, "thorough": 3600}
 
@@ -709,6 +709,7 @@ def workload(tier, seed):
         yield "large", {"cls": cls}
         for i in range(1 if quick else 12):
             yield "sampled", {"cls": cls, "rseed": seed * 100 + i}
+            yield "history", {"cls": cls, "rseed": seed * 100 + i}
         seeds = [seed * 100 + i for i in range(3 if quick else 20)]
         for (v, d) in ((2, 1), (4, 1)):
             for ny in (2, 3):
@@ -887,3 +888,14 @@ def case_sampled(ctx, cls, rseed):
                     pool.append(set(t))
                     exp[t] = ok
                 compare("gop", desc, F, pool, lambda t, exp=exp: exp[frozenset(t)], ("gop-large", N, tuple(E), vname, plant, cls, rseed))
+
+
+def case_history(ctx, cls, rseed):
+    """Graph ordering principle on a Graph object that is edited (and grown by two vertices at once) between calls."""
+    K = S.formula_classes()[cls]
+    g = gens()
+    r = ctx.rng("c03hist", cls, rseed)
+    for vname, kw in VARIANTS:
+        for plant in (False, True):
+            S.graph_history_check(ctx, "gop", "GraphOrderingPrinciple(%s,plant=%s)[%s]" % (vname, plant, cls),
+                                  lambda G: g.GraphOrderingPrinciple(G, plant=plant, formula_class=K, **kw), r, n=r.randint(3, 5))
